@@ -65,5 +65,20 @@ def run(tier, seed, ctxs=CTXS, wd=None):
         stats["states"] += r.distinct; stats["transitions"] += r.generated
         stats["per_ctx"][ctx] = {"cases": g[2], "typed": g[3], "untyped": g[4], "accepted_by_lib": have, "trace_s": round(r.secs, 1)}
         log("Trace_Ast %s: %d events, %d verdict lines (%.1fs)" % (ctx, nev, len(vs), r.secs))
+    # L2 lemma: the decoder automaton (Decoder.tla) against Encode, without the library: own encodings
+    # decode to themselves, accepted instruction-level mutants are canonical
+    for ctx in [c for c in ctxs if c in ("segwitv0", "tap", "legacy")]:
+        name = "MC_Decoder_%s" % ctx
+        cfg = pipe_sat.gen_cfg(u, ctx, maxnodes=(3 if tier == "quick" and ctx == "legacy" else 4)) + \
+            ["INIT Init", "NEXT Next", "INVARIANT Inv", "POSTCONDITION Post", "CHECK_DEADLOCK FALSE"]
+        write_module(wd, name, "MC_Decoder", pipe_sat.gen_defs(u), cfg)
+        r = tlc(wd, name, name + ".cfg", workers=10, heap="12g", timeout=3300)
+        if not r.ok or r.tagged("VERDICT") or not r.tagged("MC_DONE"):
+            log(r.out[-4000:])
+            raise ToolError("MC_Decoder lemma failed (%s): the L2 decoder model is not the inverse of Encode" % ctx)
+        stats["states"] += r.distinct
+        stats["transitions"] += r.generated
+        stats.setdefault("mc_decoder", {})[ctx] = {"fragments": r.tagged("MC_DONE")[0][1], "secs": round(r.secs, 1)}
+        log("MC_Decoder %s: %d fragments (%.1fs)" % (ctx, r.tagged("MC_DONE")[0][1], r.secs))
     stats["wall"] = time.time() - t0
     return {"verdicts": verdicts, "stats": stats, "wd": wd}
